@@ -11,7 +11,27 @@ ERRGROUP = job("$GOMODCACHE/golang.org/x/sync@v0.6.0/errgroup", "golang.org/x/sy
 
 FIRST_SUCCESS = job("$REPO", MOD, ["first-success.go"], imports={"golang.org/x/sync/errgroup": MOD + "/zzverif/verrgroup"})
 
+GSFA_SHRINK = ["const:itemsPerBatch=2", "var:howManyBuffersToFlushConcurrently=2", "makecap:fullBufferWriterChan=1",
+               "lit:Push:500=2", "lit:Push:100_000=1", "lit:Push:100=2", "lit:NewGsfaWriter:1_000_000=16"]
+GSFA_PERF = [
+    job("$REPO/gsfa/linkedlog", MOD + "/gsfa/linkedlog", ["linked-log.go"], sync=False, rules_only=True, rules=["lit:NewLinkedLog:12=1/16"]),
+    job("$REPO/indexes", MOD + "/indexes", ["index-pubkey-to-offset-and-size.go"], sync=False, rules_only=True,
+        rules=["lit:NewWriter_PubkeyToOffsetAndSize:1000000=1"]),
+]
+
 CHECKS = {
+    "C06": {
+        "pkg": "gsfa", "harness": ["gsfa/kit_test.go", "gsfa/c06_test.go", "gsfa/c06_real_test.go"], "run": "^TestVerif_C06_Sched$",
+        "level": "model_checking",
+        "variants": [
+            {"name": "sched", "run": "^TestVerif_C06_Sched$",
+             "instrument": [job("$REPO/gsfa", MOD + "/gsfa", ["gsfa-write.go"], rules=GSFA_SHRINK)] + GSFA_PERF},
+            {"name": "real", "run": "^TestVerif_C06_Real$", "instrument": [], "shards": {"quick": 2, "thorough": 4}},
+            {"name": "reclen", "run": "^TestVerif_C06_RecLen$", "instrument": [], "shards": {"quick": 1, "thorough": 1}},
+        ],
+        "quick": {"shards": 16, "budget_s": 60},
+        "thorough": {"shards": 16, "budget_s": 900},
+    },
     "C09": {
         "pkg": ".", "harness": ["main/kit_test.go", "main/c18_test.go", "main/c09_test.go"], "run": "^TestVerif_C09$",
         "level": "model_checking",
